@@ -300,7 +300,13 @@ func (x *Exec) applyContract(fr *frame, st *State, fc *FuncContract, sig *types.
 		for _, key := range []string{short, fc.Name} {
 			for j, cp := range x.fc.CallPre[key] {
 				// evaluated in the caller's environment, with the callee's argument names bound as well
-				cenv := x.specEnv(fr, pre, nil).with(vars)
+				// the callee's parameter names take precedence over same-named locals of the caller
+				pvars := map[string]Val{}
+				for k, v := range vars {
+					pvars["$local:"+k] = v
+				}
+				cenv := x.specEnv(fr, pre, nil).with(pvars)
+				cenv.pol = -1
 				t, err := x.evalBool(cp.Expr, cenv)
 				if err != nil {
 					return Val{}, fmt.Errorf("%s:%d: callpre %s: %w", cp.File, cp.Line, key, err)
@@ -490,6 +496,41 @@ func (x *Exec) designator(e Expr, env *SpecEnv) ([]modTarget, error) {
 				return nil, err
 			}
 			return []modTarget{{key: "big.Int", sort: arraySort(SInt, SInt), ref: v.T}}, nil
+		}
+		if (t.Fun == "allcells" || t.Fun == "allelems") && len(t.Args) == 1 {
+			// every heap cell / every slice element of type T
+			ty, err := x.typeExpr(t.Args[0], env)
+			if err != nil {
+				return nil, err
+			}
+			if t.Fun == "allcells" {
+				key, hs := vc.cellKey(ty)
+				return []modTarget{{key: key, sort: hs, all: true}}, nil
+			}
+			key, hs := vc.elemKey(ty)
+			return []modTarget{{key: key, sort: hs, all: true}}, nil
+		}
+		if t.Fun == "all" && len(t.Args) == 1 {
+			// all(T.f): field f of every object of struct type T (of the contract's package)
+			sel, ok := t.Args[0].(*ESel)
+			if !ok {
+				return nil, fmt.Errorf("all(T.f) expected")
+			}
+			ty, err := x.typeExpr(sel.X, env)
+			if err != nil {
+				return nil, err
+			}
+			su, ok := ty.Underlying().(*types.Struct)
+			if !ok {
+				return nil, fmt.Errorf("all(T.f): T is not a struct type")
+			}
+			for i := 0; i < su.NumFields(); i++ {
+				if su.Field(i).Name() == sel.Name {
+					key, hs := vc.fieldKey(ty, i)
+					return []modTarget{{key: key, sort: hs, all: true}}, nil
+				}
+			}
+			return nil, fmt.Errorf("all(T.f): no field %s", sel.Name)
 		}
 		if t.Fun == "fields" && len(t.Args) == 1 {
 			// fields(p): every field of the struct p points to
